@@ -147,6 +147,28 @@ def unmarshalAux : Nat → Bytes → List RLE
 def unmarshal (b : Bytes) : Option (List RLE) :=
   if b.length % 16 ≠ 0 then none else some (unmarshalAux (b.length / 16) b)
 
+def fromLe32u : Bytes → Nat
+  | a :: b :: c :: d :: _ => a.toNat + b.toNat * 256 + c.toNat * 65536 + d.toNat * 16777216
+  | _ => 0
+
+/-- `dvid.ReadRLEs` on a byte stream: 8 header bytes (the first must be `EncodingBinary` = 0), a uint32 span
+    count, then that many 16-byte runs; an error when the stream ends early.  Trailing bytes are not read. -/
+def readRLEs (b : Bytes) : Option (List RLE) :=
+  if b.length < 12 then none
+  else if b.head? ≠ some 0 then none
+  else
+    let n := fromLe32u (b.drop 8)
+    if b.length - 12 < 16 * n then none else some (unmarshalAux n (b.drop 12))
+
+/-- run slots the reader has allocated by the time it returns, success or error: with
+    `Gen.rleReaderAllocatesAsRead` a bounded preallocation plus what `append` grows to for the runs that really
+    arrived (at most twice their number); without it, the announced count -/
+def readerAllocatedRuns (b : Bytes) : Nat :=
+  if b.length < 12 then 0
+  else
+    let n := fromLe32u (b.drop 8)
+    if Gen.rleReaderAllocatesAsRead then min n Gen.rleReaderMaxPrealloc + 2 * min n ((b.length - 12) / 16) else n
+
 /-- removal of a sorted, normalised `splits` from sorted, normalised `orig` — `RLEs.Split` after both
     sides were normalised.  `none` = "not contained" error. -/
 def splitSorted : List RLE → List RLE → Nat → Option (List RLE)
